@@ -200,7 +200,13 @@ where
     }
 
     fn finish(&mut self, _: &sam::Header) -> io::Result<()> {
-        Ok(())
+        // Buffered data must not be left to `Drop`, which cannot report a failure.
+        loop {
+            match self.inner.flush() {
+                Err(e) if e.kind() == io::ErrorKind::Interrupted => {}
+                result => return result,
+            }
+        }
     }
 }
 
